@@ -5,6 +5,7 @@ import (
 	"fmt"
 	"net/url"
 	"os"
+	"path/filepath"
 	"runtime"
 	"strings"
 	"time"
@@ -205,6 +206,49 @@ func (c *Config) readFile() error {
 }
 
 func (c *Config) writeFile() error {
+	// write to a temporary file next to the config and rename it over the config, so that
+	// a crash at any point leaves either the previous or the new configuration on disk
+	// (the file holds the client certificate and private key)
+	mode := os.FileMode(0644)
+	if st, err := os.Stat(c.path); err == nil {
+		mode = st.Mode().Perm()
+	}
+	f, err := os.CreateTemp(filepath.Dir(c.path), filepath.Base(c.path)+".tmp-*")
+	if err != nil {
+		return fmt.Errorf("error opening config file for writing: %w", err)
+	}
+	tmp := f.Name()
+	defer os.Remove(tmp) // no-op once renamed
+
+	encoder := yaml.NewEncoder(f)
+	encoder.SetIndent(2)
+	if err := encoder.Encode(c); err != nil {
+		f.Close()
+		return err
+	}
+	if err := encoder.Close(); err != nil {
+		f.Close()
+		return err
+	}
+	if err := f.Chmod(mode); err != nil {
+		f.Close()
+		return err
+	}
+	if err := f.Sync(); err != nil {
+		f.Close()
+		return err
+	}
+	if err := f.Close(); err != nil {
+		return err
+	}
+	if err := os.Rename(tmp, c.path); err != nil {
+		// e.g. the config is a bind-mounted single file that cannot be replaced
+		return c.writeFileInPlace()
+	}
+	return nil
+}
+
+func (c *Config) writeFileInPlace() error {
 	f, err := os.OpenFile(c.path, os.O_RDWR|os.O_CREATE|os.O_TRUNC, 0644)
 	if err != nil {
 		return fmt.Errorf("error opening config file for writing: %w", err)
